@@ -145,6 +145,10 @@ M['c15_b7_graceful_interrupt_exit0'] = ('C15', 'quiet', 'benign: Ctrl-C while a 
     (MAIN, "            with open(path, 'rb') as f:\n                source = f.read()\n",
            "            try:\n                with open(path, 'rb') as f:\n                    source = f.read()\n            except KeyboardInterrupt:\n                sys.stderr.write('interrupted\\n')\n                sys.exit(0)\n"),
 ])
+M['c15_b8_atomic_write_with_retry'] = ('C15', 'quiet', 'benign: the repaired form of seeded change c15s - temp file + fsync + os.replace, retryable errors (EINTR/EAGAIN/EBUSY) repeated after seek(0)/truncate(): a run whose transient fault is absorbed by the retry exits 0 and must pass as fault-free', [
+    (MAIN, 'def stdout_write_bytes(data):', "def write_in_place(path, data):\n    import errno, shutil, tempfile\n    target = os.path.realpath(path)\n    if not os.access(target, os.W_OK):\n        raise IOError(errno.EACCES, os.strerror(errno.EACCES), path)\n    fd, tmp_path = tempfile.mkstemp(prefix='.' + os.path.basename(target) + '.', suffix='.tmp', dir=os.path.dirname(target))\n    try:\n        with os.fdopen(fd, 'wb') as f:\n            for attempt in range(1, 4):\n                try:\n                    f.seek(0)\n                    f.truncate()\n                    f.write(data)\n                    f.flush()\n                    os.fsync(f.fileno())\n                    break\n                except (IOError, OSError) as e:\n                    if e.errno not in (errno.EINTR, errno.EAGAIN, errno.EBUSY) or attempt == 3:\n                        raise\n        shutil.copymode(target, tmp_path)\n        os.replace(tmp_path, target)\n    except BaseException:\n        try:\n            os.unlink(tmp_path)\n        except OSError:\n            pass\n        raise\n\n\ndef stdout_write_bytes(data):"),
+    (MAIN, "            if args.in_place:\n                with open(path, 'wb') as f:\n                    f.write(minified)\n", "            if args.in_place:\n                write_in_place(path, minified)\n"),
+])
 M['c15_b3_pathlib_io'] = ('C15', 'quiet', 'benign: reads through pathlib', [
     (MAIN, "            with open(path, 'rb') as f:\n                source = f.read()\n", "            import pathlib\n            source = pathlib.Path(path).read_bytes()\n"),
 ])
